@@ -16,7 +16,7 @@ Ltac inv H := inversion H; subst; clear H.
 (* ------------------------------------------------------------------ frames *)
 (* a handler poll touches only the handler scripts and the body channels *)
 Lemma run_h_frame rid acts : forall s s' rest out, run_h rid acts s = (s', rest, out) ->
-  s' = set_chans (chans s') s.
+  s' = set_hfail (hfail s') (set_chans (chans s') s).
 Proof.
   induction acts as [|a acts IH]; intros s s' rest out H; cbn [run_h] in H.
   - inv H. reflexivity.
@@ -25,7 +25,7 @@ Proof.
 Qed.
 
 Lemma poll_handler_frame rid s s' out : poll_handler rid s = (s', out) ->
-  s' = set_hs (hs s') (set_chans (chans s') s).
+  s' = set_hs (hs s') (set_hfail (hfail s') (set_chans (chans s') s)).
 Proof.
   unfold poll_handler. destruct (run_h rid (hs_get rid (hs s)) s) as [[s1 rest] o] eqn:E.
   intro H. inv H. apply run_h_frame in E. rewrite E. reflexivity.
@@ -102,6 +102,12 @@ Qed.
 Lemma poll_request_B c s : Binv s -> Binv (fst (poll_request c s)).
 Proof. unfold poll_request. intro H. repeat bm; try exact H. apply decode_loop_B. exact H. Qed.
 
+(* the two end-of-body arms of poll_response (SendPayload / SendErrorPayload) are the same transition *)
+Lemma body_end_err_eq c s : body_end_err c s = body_end c s.
+Proof. reflexivity. Qed.
+Lemma body_if c x : (if berr x then body_end_err c x else body_end c x) = body_end c x.
+Proof. rewrite body_end_err_eq. destruct (berr x); reflexivity. Qed.
+
 Lemma body_end_B c s : Binv s -> Binv (body_end c s).
 Proof.
   apply Binv_frame; unfold body_end, complete_flags, finish_hook, add_trace; repeat bm; cbn; auto.
@@ -109,7 +115,7 @@ Qed.
 
 Lemma poll_response_B c : forall fuel s, Binv s -> Binv (poll_response fuel c s).
 Proof.
-  induction fuel as [|f IH]; intros s H; cbn [poll_response].
+  induction fuel as [|f IH]; intros s H; cbn [poll_response]; rewrite ?body_if.
   - revert H. apply Binv_frame; cbn; auto.
   - destruct (dstate s) eqn:Ed.
     + destruct (draining s).
